@@ -108,6 +108,23 @@ pub fn run(rng: &mut R, out: &mut Out) {
         let f = FullParams::new(gen::script(rng), gen::u32_edge(rng), elements::bitcoin::ScriptBuf::from_bytes(gen::bytes(rng, 34)), gen::bytes(rng, 100), (0..n).map(|_| gen::bytes(rng, 33)).collect());
         one_params(out, &Params::Full(f));
     }
+    // edge cases: every combination of null / compact / full / all-extras-empty-full for current and proposed
+    {
+        let compact = loop { let p = gen::params(rng); if p.is_compact() { break p; } };
+        let full = loop { let p = gen::params(rng); if p.is_full() { break p; } };
+        let bare = Params::Full(FullParams::new(gen::script(rng), 7, elements::bitcoin::ScriptBuf::new(), vec![], vec![]));
+        let all = [Params::Null, compact, full, bare];
+        for c in all.iter() {
+            for p in all.iter() {
+                let mut h = gen::header(rng);
+                h.ext = BlockExtData::Dynafed { current: c.clone(), proposed: p.clone(), signblock_witness: vec![] };
+                one_header(out, &h);
+            }
+        }
+        let mut h = gen::header(rng);
+        h.ext = BlockExtData::default();
+        one_header(out, &h);
+    }
     for _ in 0..200 * scale {
         one_header(out, &gen::header(rng));
     }
